@@ -170,7 +170,10 @@ def asan_env(log_path: str | None = None, extra_options: str = "", recover: bool
     opts = ["detect_leaks=0", "symbolize=1" if symbolize else "symbolize=0", "allocator_may_return_null=1",
             "handle_abort=1", "abort_on_error=0", "print_summary=1", "print_legend=0"]
     if recover:
-        opts += ["halt_on_error=0", "suppress_equal_pcs=0", "fast_unwind_on_fatal=1"]
+        # small quarantine / short allocation stacks keep the process small, so that forking a runner
+        # from it and reaping it stay cheap (a case allocates a few KiB; 16 MiB of quarantine is ample)
+        opts += ["halt_on_error=0", "suppress_equal_pcs=0", "fast_unwind_on_fatal=1", "quarantine_size_mb=16",
+                 "malloc_context_size=4"]
     if log_path:
         opts.append("log_path=" + log_path)
     if extra_options:
